@@ -344,20 +344,25 @@ pub fn run(ctx: &Ctx, focus: &str) -> Result<()> {
 	if focus != "c10" {
 		let dir = std::fs::canonicalize(&ctx.out)?;
 		for i in 0..n / 4 {
-			let t = gen_tile(&mut rng, Some("tid"));
+			// every fifth case is the narrow-feature / wide-row shape: features that carry the join id and one property whose name is
+			// also a column of the table (with another value), a table with more columns than the feature has properties, merge mode
+			let narrow = i % 5 == 2;
+			let t = if narrow { vec![GLayer { name: "roads".into(), extent: 4096, version: 2, keys: vec!["kind".into(), "tid".into()],
+				vals: vec![GVal::Str("old".into()), GVal::UInt(0), GVal::UInt(1), GVal::UInt(2), GVal::UInt(3)],
+				feats: (0..4u32).map(|j| GFeat { id: Some(j as u64 + 10), tags: vec![0, 0, 1, 1 + j], gtype: 1, geom: vec![9, 2, 2] }).collect(), tables_first: rng.chance(1, 2) }] } else { gen_tile(&mut rng, Some("tid")) };
 			if t.iter().any(|l| l.feats.iter().any(|f| f.tags.len() % 2 != 0)) { continue; }
-			let layer_name = if t.is_empty() || rng.chance(1, 8) { "absent".to_string() } else { t[rng.below(t.len() as u64) as usize].name.clone() };
+			let layer_name = if narrow { "roads".to_string() } else if t.is_empty() || rng.chance(1, 8) { "absent".to_string() } else { t[rng.below(t.len() as u64) as usize].name.clone() };
 			// data table: ids 0..3 (some missing), columns `id`, `extra`, `kind`
 			let mut rows: Vec<(u64, String, String)> = Vec::new();
-			for id in 0..4u64 { if rng.chance(2, 3) { rows.push((id, rng.pick(&["x", "y", "true", "12", "-5", "1.5", ""]).to_string(), rng.pick(&["motorway", "path", ""]).to_string())); } }
+			for id in 0..4u64 { if rng.chance(2, 3) || (narrow && id < 2) { rows.push((id, rng.pick(&["x", "y", "true", "12", "-5", "1.5", ""]).to_string(), rng.pick(&["motorway", "path", ""]).to_string())); } }
 			// the table has the id column alone, or one or two further columns; a table without further columns gives empty rows
-			let ncols = *rng.pick(&[2usize, 2, 2, 1, 0]);
+			let ncols = if narrow { 2 } else { *rng.pick(&[2usize, 2, 2, 1, 0]) };
 			let csv = format!("{}\n{}", ["id", "id,extra", "id,extra,kind"][ncols], rows.iter().map(|(a, b, c)| match ncols { 0 => format!("{a}\n"), 1 => format!("{a},{b}\n"), _ => format!("{a},{b},{c}\n") }).collect::<String>());
 			// sometimes the stage runs behind a merging pass with the same table: every matched feature then already carries all
 			// values of its row, and the outcome must be that of the single pass
 			let twice = rng.chance(1, 3);
 			let csv_path = dir.join(format!("data_{i}.csv")); std::fs::write(&csv_path, &csv)?;
-			let (replace, remove, include) = (rng.chance(1, 2), rng.chance(1, 2), rng.chance(1, 2));
+			let (replace, remove, include) = (rng.chance(1, 2) && !narrow, rng.chance(1, 2), rng.chance(1, 2));
 			let name = format!("u{i}_{}", ctx.seed);
 			let c = *rng.pick(&[TileCompression::Uncompressed, TileCompression::Gzip]);
 			register(&name, Box::new(MemSource::new(&name, vec![((3, 1, 2), compress(Blob::from(enc_tile(&t)), &c).unwrap().into_vec())], TileFormat::PBF, c)));
